@@ -133,7 +133,8 @@ class ResponseEncoder:
             if isinstance(chunk, str):
                 try:
                     chunk = chunk.encode(encoding, self.errors)
-                except (LookupError, UnicodeError):
+                except (LookupError, ValueError):
+                    # ValueError: UnicodeError, or a NUL in the charset name
                     return False
             body.append(chunk)
         self.body = body
